@@ -504,6 +504,7 @@ impl<const M: usize> Sim<M> {
         };
         let _ = self.call(|b| b.set_allocation_limit(lim));
         self.limit = lim;
+        self.limit_predates_reset = false;
         self.st(St::LimitSetOps);
         self.absorb_events(OpKind::Limit);
         self.observe(OpKind::Limit);
@@ -637,6 +638,7 @@ impl<const M: usize> Sim<M> {
         if self.chunks.len() > 1 {
             let n = self.chunks.len();
             self.v("C06", format!("after reset the arena still holds {n} blocks from the global allocator (had {n_before})"));
+            self.v("C03", format!("reset gave back only {} of the {} blocks it had to (all but the one kept)", n_before - n, n_before - 1));
         }
         if n_before >= 1 && self.chunks.is_empty() {
             // allowed by the statement ("at most one"), nothing to check
@@ -656,6 +658,7 @@ impl<const M: usize> Sim<M> {
             self.v("C06", "reset of an arena that never obtained memory changed its observable state".to_string());
         }
         self.after_reset = true;
+        self.limit_predates_reset = self.limit.is_some();
         self.push_trace(OUT_OK, 0, 0);
         if refill && self.chunks.len() == 1 {
             // hand out the full usable capacity again, in pieces, without touching the global allocator
